@@ -173,6 +173,13 @@ def L3q():
         yield ("fn", ("while", 2, ("seq", a, b)))
 
 
+def L3r():
+    """two loops at different block depths, every counter kind (cfgen.loop_sequences), in a function and at module level"""
+    for s in cfgen.loop_sequences():
+        yield ("fn", s)
+        yield ("module", s)
+
+
 def L5_double(depth):
     seen = set()
     for s in cfgen.shapes(depth):
@@ -325,13 +332,13 @@ class C01(Check):
                     ("Ls-statement-forms", [("form", k) for k in STATEMENT_FORMS]),
                     ("Lm-lexical-transformations-of-the-generated-corpus", self.meta_cases(tier)),
                     ("Lp-depth<=1-single-deviation-minimal-parentheses", L1(1, ("fn~min",))),
-                    ("L2-spines<=4", L2(4)), ("L3q-pairs-of-compounds", L3q()),
+                    ("L2-spines<=4", L2(4)), ("L3q-pairs-of-compounds", L3q()), ("L3r-two-loops-at-different-block-depths-every-counter-kind", L3r()),
                     ("L1-depth<=2-single-deviation(no call/store/defcall leaves)", L1(2, skip=("call", "store", "defcall", "tplain"), core_conds_beyond_depth1=True))]
         return [("L0-depth<=3-default", L0(3)), ("L0b-depth<=2-module+recursion", L0b()), ("L0c-depth<=2-void-functions", L0c()),
                 ("Li-identifier-spellings", [("ident", r, n) for n in ident_names() for r in IDENT_ROLES]),
                 ("Ls-statement-forms", [("form", k) for k in STATEMENT_FORMS]),
                 ("Lm-lexical-transformations-of-the-generated-corpus", self.meta_cases(tier)),
-                ("L1-depth<=2-single-deviation", L1(2, ("fn", "module", "rec", "fn~min"))), ("L3-pairs", L3()),
+                ("L1-depth<=2-single-deviation", L1(2, ("fn", "module", "rec", "fn~min"))), ("L3-pairs", L3()), ("L3r-two-loops-at-different-block-depths-every-counter-kind", L3r()),
                 ("L2-spines<=5", L2(5)), ("L6-long-sequences", L6_long()), ("L5a-depth<=2-double-deviation", L5_double(2)),
                 ("L5b-depth<=3-single-deviation", L1(3)), ("L4-depth<=4-default", L0(4))]
 
